@@ -16,11 +16,14 @@
    C01's stream `search` for the labelling); the real labelling runs on REUSED storage
    (CanonicalStorage / CanonicalOrderedPartition live in the iterator and are not saved; Load
    builds fresh ones) — that its answers do not depend on what an earlier call left there is
-   C02's reuse statement, not part of this model.  Termination / absence of panic of Next: for
-   the unpruned run from All(n, a, m) see Props/C03_unconditional.v. *)
+   C02's reuse statement, not part of this model.  Termination and absence of panic of Next, open
+   in Props/C04.v, are settled for the composed model by Props/C03_unconditional.v; with it the
+   property reads as in its text: the resumed iterator yields exactly the remaining graphs and
+   stops (C04_resume_remaining_real). *)
 From Coq Require Import List NArith ZArith Arith Bool Lia.
 From Mamba Require Import Disjoint.Model Search.Model Search.SaveModel Search.SaveProofs.
-From Mamba Require Import Search.OrderlyInstKsubModel Search.ComposeModel Search.Compose.
+From Mamba Require Import Search.ShardModel Search.Prune Search.OrderlyTop.
+From Mamba Require Import Search.OrderlyInstKsubModel Search.ComposeModel Search.Compose Search.ComposeResume.
 Import ListNotations.
 Local Open Scope nat_scope.
 
@@ -66,11 +69,50 @@ Proof.
 Qed.
 Print Assumptions C04_chain_exact_real.
 
+(* The property in terms of the caller's loop `for it.Next() { use(it.Value()) }` ([outputs],
+   Search/ShardModel.v), for ANY labelling that ignores the stale ViableBits and any pruning: if the
+   loop run from a state s (satisfying the between-calls invariant, e.g. WithPruning(n, a, m))
+   collects the list L, then after k <= |L| calls the iterator has shown exactly the first k graphs
+   of L, Save / Load there succeeds, and the loop run on the loaded iterator collects exactly the
+   remaining graphs of L, in order, and ends (no panic, within the same number of calls and steps). *)
+Theorem C04_resume_remaining :
+  forall grow canon ksub_reps preprune prune, canon_ignores_stale_bits canon ->
+  forall calls fuel s L, inv s ->
+  outputs grow canon ksub_reps preprune prune calls fuel s = Ok L ->
+  forall k, k <= length L ->
+  exists s_k s', advance grow canon ksub_reps preprune prune fuel k s = (map Some (firstn k L), Ok s_k) /\
+    load (save s_k) = Some s' /\
+    outputs grow canon ksub_reps preprune prune (calls - k) fuel s' = Ok (skipn k L).
+Proof. exact resume_remaining. Qed.
+Print Assumptions C04_resume_remaining.
+
+(* ... and for the composed model the premise holds (Props/C03_unconditional.v): for every
+   n <= 63, every shard a < m, and every predicate P that stays true when a vertex is added,
+   placed as preprune, prune or both (P := no_prune: the unpruned shards), the run from
+   WithPruning(n, a, m) ends without panic with some list L, and a save made after any k <= |L|
+   graphs resumes with exactly the remaining graphs of L.  No hypothesis on the labelling, no
+   termination or no-panic assumption. *)
+Theorem C04_resume_remaining_real :
+  forall grow n, n <= 63 ->
+  forall P pre post, grows_bad P ->
+    (pre = P \/ pre = no_prune) -> (post = P \/ post = no_prune) -> (pre = P \/ post = P) ->
+  forall m a, a < m ->
+  exists L calls fuel,
+    outputs grow canon_real ksub_real_fn pre post calls fuel (init n a m) = Ok L /\
+    forall k, k <= length L ->
+    exists s_k s', advance grow canon_real ksub_real_fn pre post fuel k (init n a m) =
+                     (map Some (firstn k L), Ok s_k) /\
+      load (save s_k) = Some s' /\
+      outputs grow canon_real ksub_real_fn pre post (calls - k) fuel s' = Ok (skipn k L).
+Proof. exact real_resume_full. Qed.
+Print Assumptions C04_resume_remaining_real.
+
 (* Non-vacuity on the composed model, n = 4 (11 graphs): after five graphs the original holds a
    cached automorphism group computed by the labelling model; the loaded state is a different
    state with the same projection and an empty cache; both go on with the same six graphs and
-   then false; and the chain 2 / save / load / 0 / save / load / 3 / save / load + 7 calls shows
-   what 12 calls of the original show: eleven graphs and false. *)
+   then false; the chain 2 / save / load / 0 / save / load / 3 / save / load + 7 calls shows
+   what 12 calls of the original show: eleven graphs and false; the caller's loop on the loaded
+   iterator collects graphs 6..11 of the run. *)
 Definition np (g : vgraph) := false.
 Definition real_advance := advance (fun k => k) canon_real ksub_real_fn np np.
 
@@ -85,7 +127,13 @@ Example C04_real_nonvacuous :
     fst (chain_then (fun k => k) canon_real ksub_real_fn np np 100 [2; 0; 3] 7 (init 4 0 1)) =
       fst (real_advance 100 12 (init 4 0 1)) /\
     length (filter (fun o => match o with Some _ => true | None => false end)
-                   (fst (real_advance 100 12 (init 4 0 1)))) = 11.
+                   (fst (real_advance 100 12 (init 4 0 1)))) = 11 /\
+    (* the caller's loop on the loaded iterator collects the remaining six of the eleven graphs *)
+    match outputs (fun k => k) canon_real ksub_real_fn np np 12 100 (init 4 0 1) with
+    | Ok L => length L = 11 /\
+              outputs (fun k => k) canon_real ksub_real_fn np np 7 100 s2 = Ok (skipn 5 L)
+    | _ => False
+    end.
 Proof.
   destruct (real_advance 100 5 (init 4 0 1)) as [os [s1| |]] eqn:E;
     vm_compute in E; try discriminate.
@@ -94,5 +142,6 @@ Proof.
   split; [discriminate|]. split; [vm_compute; reflexivity|]. split; [discriminate|].
   split; [reflexivity|]. split; [reflexivity|].
   split; [vm_compute; reflexivity|]. split; [vm_compute; reflexivity|].
-  split; vm_compute; reflexivity.
+  split; [vm_compute; reflexivity|]. split; [vm_compute; reflexivity|].
+  vm_compute. split; reflexivity.
 Qed.
